@@ -20,7 +20,8 @@ def render(kinds, rng, style=0, final_nl=True, lang="C"):
     out = []
     for i, k in enumerate(kinds):
         if k == "code" and lang == "PAWN":
-            t = ["new   a%d=%d", "  f%d( )", "x%d  =  y+ %d"][(i + style) % 3] % ((i, i) if (i + style) % 3 != 1 else (i,))
+            # (a bare 'f( )' line would make the next line its one-statement body)
+            t = ["new   a%d=%d", "  new b%d  = %d", "x%d  =  y+ %d"][(i + style) % 3] % (i, i)
         elif k == "code":
             t = ["int   a%d=%d ;", "  void f%d( void ) ;", "x%d  =  y+ %d;"][(i + style) % 3] % ((i, i) if (i + style) % 3 != 1 else (i,))
         elif k in ("raw",):
@@ -227,14 +228,11 @@ def _job(a):
             ev["ign"] = [c[obs.TEXT] for c in tk["chunks"] if c[obs.TYPE] == "IGNORED" and c[obs.TEXT].strip(" \t")]
             ev["ign_expected"] = [l for r in rin for l in r if l != ""]
     res.append(ev)
-    # opacity: same kinds, other raw contents (different texts, one more line per raw line)
+    # opacity: same kinds, other raw contents
     if rc == 0 and any(k in ("raw", "rawon", "ws", "blank") for k in kinds):
         rng2 = random.Random(seed + 7919)
-        kinds2 = []
-        for k in kinds:
-            kinds2.append(k)
-            if k == "raw":
-                kinds2.append("raw")
+        # the same number of lines (alignment spans count line breaks, also across a region), other contents
+        kinds2 = list(kinds)
         text2, ls2 = render(kinds2, rng2, style, final_nl, lang)
         # keep the non-region lines textually identical: re-render them from the first rendering
         it = iter([l for l, k in zip(ls, kinds) if k not in ("raw",)])
@@ -365,9 +363,10 @@ def run(ctx):
                         return a_ == b_
                     if bad_regs and all(edge_blank_only(rg_) for rg_ in bad_regs):
                         sig = "RegionVerbatim|blank-lines-at-region-edge"
-                if meta[5] == "ifbody" and any(k in ("pend", "endasm") for k in meta[0]) and b in ("RegionOpaque", "RegionVerbatim", "RegionLost"):
-                    # the virtual brace of the unbraced body is opened BEHIND the region: the closing directive is not the first chunk of its line
-                    sig = "%s|unbraced-body|closed-by-directive" % b
+                first = next((k for k in meta[0] if k not in ("ws", "blank")), "")
+                if meta[5] == "ifbody" and first in ("off", "pasm", "asm", "offon") and b in ("RegionOpaque", "RegionVerbatim", "RegionLost"):
+                    # the virtual brace of the unbraced body is opened BEHIND the region that starts the body
+                    sig = "%s|unbraced-body-starts-with-region" % b
                 ctx.violation(sig, "%s violated for kinds %s (%s, %s): %s" % (b, meta[0], meta[5] or "file level", meta[6], json.dumps(e.get("regs", e.get("ids")))[:600]),
                               {"kind": "c07", "kinds": meta[0], "cfg_text": meta[1], "style": meta[2], "final_nl": meta[3], "seed": meta[4], "wrap": meta[5], "lang": meta[6]})
             for dn in rep["drift"]:
